@@ -168,6 +168,39 @@ def oracle(ck, tier, deep):
                 ck.violation(dict(site="SPolynomial", clause="abel"), dict(rep, pixel=[i, j]),
                              f"abel[{i},{j}] = {sp.abel[i, j]:.12g}, line-of-sight integral = {wa:.12g}")
                 break
+    # PiecewiseSPolynomial = sum of its pieces (each piece is decided above), for any order of pieces, including pieces whose
+    # coefficient matrix is all zero (first, middle or last); in-place scaling and copies act on func and abel separately
+    for it in range(15 if not deep else 150):
+        shape = (int(rng.integers(7, 13)), int(rng.integers(7, 13)))
+        R, C = quiet(rcos, shape=shape)
+        npieces = int(rng.integers(2, 5))
+        ranges = []
+        for k in range(npieces):
+            M, N = int(rng.integers(1, 4)), int(rng.integers(1, 4))
+            c = rng.normal(size=(M, N))
+            if rng.random() < 0.35 or (k == 0 and it % 2 == 0):
+                c = np.zeros((M, N))
+            rmin, rmax = sorted(rng.uniform(0, 10, size=2))
+            ranges.append((float(rmin), float(rmax), c) + ((float(rng.uniform(0, 5)), float(rng.uniform(0.5, 2))) if rng.random() < 0.5 else ()))
+        ck.count(("S.pspoly", npieces, tuple(bool(np.any(rg[2])) for rg in ranges)), suite="S.spolynomial")
+        rep = dict(shape=list(shape), ranges=[[rg[0], rg[1], rg[2].tolist(), *rg[3:]] for rg in ranges])
+        try:
+            pw = quiet(PiecewiseSPolynomial, R, C, [tuple(rg) for rg in ranges])
+            parts = [quiet(SPolynomial, R, C, *rg) for rg in ranges]
+        except Exception as e:
+            ck.violation(dict(site="PiecewiseSPolynomial", clause="exception"), rep, f"{type(e).__name__}: {e}")
+            continue
+        wf, wa = sum(p.func for p in parts), sum(p.abel for p in parts)
+        scale = max(1.0, np.abs(wf).max(), np.abs(wa).max())
+        if np.abs(pw.func - wf).max() > 1e-12 * scale or np.abs(pw.abel - wa).max() > 1e-12 * scale:
+            ck.violation(dict(site="PiecewiseSPolynomial", clause="sum-of-pieces"), rep,
+                         f"func / abel differ from the sum of the pieces by {np.abs(pw.func - wf).max():.3g} / {np.abs(pw.abel - wa).max():.3g}")
+            continue
+        cp = pw.copy()
+        cp *= 3.0
+        if np.abs(cp.func - 3 * wf).max() > 1e-12 * scale or np.abs(cp.abel - 3 * wa).max() > 1e-12 * scale or \
+                np.abs(pw.func - wf).max() > 1e-12 * scale or np.abs(pw.abel - wa).max() > 1e-12 * scale:
+            ck.violation(dict(site="PiecewiseSPolynomial", clause="scalar-or-copy"), rep, "`copy(); *= 3` did not scale func and abel by 3 each, leaving the original alone")
     # rcos conventions
     R, C = quiet(rcos, shape=(5, 7), origin=(1, 2))
     ck.count("S.rcos", suite="S.spolynomial")
